@@ -41,6 +41,8 @@ def jobs(tier):
                 ch = scheds2[ci::4]
                 js.append(("job_interleave", dict(_name="2 sessions %s shared_params=%d: schedules %d/4 (%d of %d)" % (mix, shared, ci + 1, len(ch), len(scheds2)),
                                                   roles=list(mix), shared=shared, ops=3, scheds=ch)))
+    for g in ("toy11", "I1024", "Ed25519"):
+        js.append(("job_matrix", dict(_name="session matrix on the plain package: %s (ground)" % g, gname=g)))
     chunks = [scheds3[i::6] for i in range(6)]
     for i, ch in enumerate(chunks):
         if tier == "quick" and i > 0:
@@ -94,6 +96,9 @@ def snapshot(objs):
             if k in _IGNORE:
                 continue
             snap[(name, k)] = v
+            if isinstance(v, (dict, list, set)) and not k.startswith("__"):
+                # in-place mutation of a shared container is a write too
+                snap[(name, k + " (container contents)")] = (len(v), tuple(id(x) for x in (v.values() if isinstance(v, dict) else v))[:50])
     return snap
 
 
@@ -107,7 +112,7 @@ def diff(before, after):
         elif before[k] is not after[k]:
             a, b = before[k], after[k]
             same = False
-            if type(a) is type(b) and isinstance(a, (int, str, bytes, bool, float, type(None), tuple)):
+            if type(a) is type(b) and isinstance(a, (int, str, bytes, bool, float, type(None), tuple)) and not isinstance(a, AbsElem):
                 try:
                     same = (a == b) is True
                 except Exception:
@@ -234,6 +239,14 @@ def job_frame(J, cls):
         J.claim(r, "outputs mention only the session's own inputs (foreign symbols: %s)" % foreign, not foreign, cex=cex, oracle="interleave")
         J.claim(r, "equal inputs give equal message and key",
                 _eq_out(dict(msg=w["msg"], key=w["oa"], blob=None), dict(msg=w["msg2"], key=w["oa2"], blob=None)), cex=cex, oracle="interleave")
+
+
+def job_matrix(J, gname):
+    from checks import matrix
+    r = matrix.session_matrix((gname,))
+    J.ground("sessions of the matrix on %s with identical entropy (same/different passwords, roles, seeds; one process, both "
+             "orders) each behave as the reference says, unaffected by the sessions before them" % gname, r is None, r,
+             oracle="interleave", args=dict(cls="A", roles=["A", "A"], shared=1, sched=[0, 1, 0, 1], ops=2))
 
 
 # ------------------------------------------------------------------ (3)
@@ -364,6 +377,10 @@ def oracle_interleave(cls, roles, shared, sched, ops):
             return (True, "multi-threaded sessions on %s differ from isolated runs: %s" % (base_nm, errs[:3]))
         if enc_state() != before or {k: sorted(v.__dict__) for k, v in K.items()} != cls_before:
             return (True, "shared parameter/group/class objects changed on %s" % base_nm)
+    from checks import matrix
+    r = matrix.session_matrix()
+    if r:
+        return (True, r)
     return (False, "isolated")
 
 
